@@ -388,7 +388,7 @@ theorem invA_rGo {s s' : St} {k : Nat} (h : InvA s) (hs : stepRGo s k = some s')
     · rename_i hrun
       cases hs
       have hon : onJob s k := h.alive_lis k j0 hk (Or.inr hrun)
-      have hst : (runGo j0 s.failSend).state = j0.state := by
+      have hst : (runGo j0 s.failNodes).state = j0.state := by
         unfold runGo; split
         · rfl
         · split <;> rfl
